@@ -68,3 +68,8 @@ Proof.
   cbn [insts].
   rewrite nth_updl_same by exact Li. split; reflexivity.
 Qed.
+
+(* a client whose attach failed stays unattached however often Start is called again, and nothing else changes *)
+Theorem failed_attach_stays_failed net w c x h :
+  nth_error (cls w) c = Some x -> c_conn x = false -> rstep net w (RAgain c) h = (w, 0%Z).
+Proof. intros Hc Hx. cbn. rewrite Hc, Hx. reflexivity. Qed.
